@@ -455,6 +455,7 @@ pub fn run_scenario(sc: &Scenario, erased: bool) -> RunOut {
     let (log, ids, odd) = rt.block_on(async move {
         let sc = sc2;
         let sh = Shared::new(n, sc.ngates, erased, true, crate::util::mix(sc.seed, 0xE7A5ED));
+        CUR_LOG.with(|c| *c.borrow_mut() = Some(sh.log.clone()));
         *crate::CURRENT.lock().unwrap_or_else(|e| e.into_inner()) =
             Some((sc.profile.clone(), sc.seed, sc.pert, erased, crate::SERIAL.load(std::sync::atomic::Ordering::Relaxed), sh.log.clone()));
         let t0 = sh.log.0.t0_tokio;
